@@ -2,7 +2,7 @@
    Directives: ExtrOcamlBasic, ExtrOcamlZBigInt, ExtrOcamlNatBigInt only. *)
 Require Extraction.
 Require Import ExtrOcamlBasic ExtrOcamlZBigInt ExtrOcamlNatBigInt.
-From LZ4V Require Import Gen.Consts Model.Sparse Model.CliOpts Model.CompressPipe.
+From LZ4V Require Import Gen.Consts Model.Sparse Model.CliOpts Model.CompressPipe Proofs.CliCompInst.
 Extraction Language OCaml.
 Extraction "lz4v.ml" fwrite_sparse fwrite_sparse_end sparse_run run_ops fresh_file f_data f_pos
-  set_block_size set_block_size_id default_io_prefs cli_init parse_args prefs_of st_layout mt_layout legacy_layout.
+  set_block_size set_block_size_id default_io_prefs cli_init parse_args prefs_of st_layout mt_layout legacy_layout cli_bytes_raw.
